@@ -369,6 +369,10 @@ def canon(items):
             if len(t) == 1 and not e and t[0][0] in ("Serde", "Raw") and (c == t[0][1] or c == t[0][1] + ".size()" or t[0][1].startswith(c) or ("*" + c + ")") in t[0][1] or ("(" + c + "*") in t[0][1]):
                 out.append(t[0])
                 continue
+            # flag building: `if (c) flags |= K;` is `flags |= (c ? K : 0)`
+            if len(t) == 1 and not e and t[0][0] == "Set" and t[0][2] == "|=" and str(t[0][3]).isdigit():
+                out.append(("Set", t[0][1], "|=", "(%s?%s:0)" % (c, t[0][3])))
+                continue
             out.append(("If", c, tuple(t), tuple(e)))
         elif it[0] == "Loop":
             out.append(("Loop", it[1], tuple(canon(it[2]))))
